@@ -40,14 +40,14 @@ ASSUMPTIONS = [
     "hosvd relations use tol at the geometric mean of two adjacent rank-switch values, at least a factor 1.01 away from both, "
     "judged through the mode spectra of the data itself (first mode exactly, later modes of a sequential run approximately); "
     "cases where either run's ranks differ are labelled and judged only on the error bound free clauses",
-    "cp_apr: when a pair disagrees, each presentation is rerun four times with the guess perturbed by 1e-12 relative; if "
+    "cp_apr: when a pair disagrees, each presentation is rerun ten times with the guess perturbed by 1e-13..1e-11 relative; if "
     "that alone moves a result by more than the relation tolerance 1e-7 the instance is numerically unstable for the algorithm (stalled line "
     "search -> division by a ~1e-20 curvature product) and is labelled, not judged",
     "cp_apr pqnr runs that raise the known 'L-BFGS first iterate is bad' assertion (C11 finding) are labelled and not judged",
     "tucker_als problems: feasible rank vectors and noisy data (see C10) so that the leading subspaces are well defined",
 ]
 
-PREDICATES = {}
+PREDICATES = {}  # filled below (the predicate needs the data builder)
 
 REL = 1e-7
 
@@ -151,7 +151,7 @@ def _als_pair(ctx, resA, resB, shape, R, A_norm2, c=1.0, perm=None, tag="pair"):
     ctx.check(resA[2].get("iters") == resB[2].get("iters"), f"{tag}-same-iteration-count", (resA[2].get("iters"), resB[2].get("iters")))
 
 
-@cell("C18/cp_als/dense-vs-sparse", strategy=lambda tier: _als_problem(tier, sparse=True), quick=200, thorough=4000, shards=(4, 16))
+@cell("C18/cp_als/dense-vs-sparse", strategy=lambda tier: _als_problem(tier, sparse=True), quick=600, thorough=12000, shards=(4, 16))
 def als_dense_sparse(ctx, case):
     S, A = H.build_data(case)
     if H.unfolding_margin(A, int(case["R"])) < 1e-3:
@@ -175,7 +175,7 @@ def _als_print_case(draw, tier):
     return c
 
 
-@cell("C18/cp_als/printing", strategy=_als_print_case, quick=200, thorough=4000, shards=(4, 16))
+@cell("C18/cp_als/printing", strategy=_als_print_case, quick=600, thorough=12000, shards=(4, 16))
 def als_printing(ctx, case):
     X, A = H.build_data(case)
     if H.unfolding_margin(A, int(case["R"])) < 1e-3:
@@ -190,7 +190,7 @@ def als_printing(ctx, case):
     _als_pair(ctx, ra, rb, case["shape"], int(case["R"]), H.sq(A), tag="printing")
 
 
-@cell("C18/cp_als/same-seed", strategy=lambda tier: _als_problem(tier, sparse=False), quick=120, thorough=2000, shards=(4, 16))
+@cell("C18/cp_als/same-seed", strategy=lambda tier: _als_problem(tier, sparse=False), quick=300, thorough=6000, shards=(4, 16))
 def als_same_seed(ctx, case):
     X, A = H.build_data(case)
     if H.unfolding_margin(A, int(case["R"])) < 1e-3:
@@ -226,7 +226,7 @@ def _als_scale_case(draw, tier):
     return c
 
 
-@cell("C18/cp_als/scaling", strategy=_als_scale_case, quick=200, thorough=4000, shards=(4, 16))
+@cell("C18/cp_als/scaling", strategy=_als_scale_case, quick=600, thorough=12000, shards=(4, 16))
 def als_scaling(ctx, case):
     X, A = H.build_data(case)
     if H.unfolding_margin(A, int(case["R"])) < 1e-3:
@@ -252,7 +252,7 @@ def _als_relabel_case(draw, tier):
     return c
 
 
-@cell("C18/cp_als/relabel", strategy=_als_relabel_case, quick=200, thorough=4000, shards=(4, 16))
+@cell("C18/cp_als/relabel", strategy=_als_relabel_case, quick=600, thorough=12000, shards=(4, 16))
 def als_relabel(ctx, case):
     X, A = H.build_data(case)
     if H.unfolding_margin(A, int(case["R"])) < 1e-3:
@@ -302,6 +302,15 @@ def apr_counts(case):
                 if not np.any(np.moveaxis(A, k, 0)[i]):
                     A[tuple(sl)] = 1.0
     return A
+
+
+def _apr_has_empty_slice(case):
+    """the count data of the case have an all-zero slice in some mode (an empty row of a mode unfolding)."""
+    A = apr_counts(case)
+    return any(not np.any(np.moveaxis(A, k, 0)[i]) for k in range(A.ndim) for i in range(A.shape[k]))
+
+
+PREDICATES["apr_has_empty_slice"] = _apr_has_empty_slice
 
 
 def apr_init(case):
@@ -386,17 +395,22 @@ def _apr_labels(ctx, case, A):
 
 
 def _perturbed_init(case, k):
-    """the guess with every entry multiplied by (1 + 1e-12 * xi), xi uniform in [-1, 1] (deterministic in case and k)."""
+    """the guess with every entry multiplied by (1 + eps * xi), xi uniform in [-1, 1], eps cycling through 1e-13, 1e-12,
+    1e-11 (deterministic in case and k)."""
     g = apr_init(case)
     rng = np.random.default_rng([61, int(case["init_seed"]), k])
-    return H.make_ktensor(np.asarray(g.weights), [np.asarray(f) * (1 + 1e-12 * rng.uniform(-1, 1, f.shape))
+    eps = (1e-13, 1e-12, 1e-11)[k % 3]
+    return H.make_ktensor(np.asarray(g.weights), [np.asarray(f) * (1 + eps * rng.uniform(-1, 1, f.shape))
                                                    for f in g.factor_matrices])
 
 
-def _apr_pair(ctx, ra, rb, case, tag, rerun):
+NPROBES = 10  # per presentation; a flipped branch shows in about half of the probes, so 2 x 10 misses it with p ~ 1e-6
+
+
+def _apr_pair(ctx, ra, rb, case, tag, rerun, diagnose=None):
     """den of both models agree to REL -- unless the instance is numerically unstable for the algorithm itself: the
     row-subproblem solvers divide by step / curvature products that can be ~1e-20 once a line search stalls, and then a
-    1e-12 perturbation of the *guess* moves the result of one and the same presentation by more than the relation
+    1e-13..1e-11 perturbation of the *guess* moves the result of one and the same presentation by more than the relation
     tolerance itself (smooth amplification >= 1e5, or a flipped branch -- row declared converged / line-search step
     accepted -- whose effect exceeds the tolerance).  Such instances say nothing about presentation; they are labelled and
     not judged.  The probe runs only when the relation fails."""
@@ -409,9 +423,9 @@ def _apr_pair(ctx, ra, rb, case, tag, rerun):
     if np.isfinite(d) and d <= REL * s:
         return
     for which, base in ((0, DA), (1, DB)):
-        for k in range(4):
+        for k in range(NPROBES):
             try:
-                rp = rerun(which, _perturbed_init(case, 4 * which + k))
+                rp = rerun(which, _perturbed_init(case, NPROBES * which + k))
             except Exception:  # noqa: BLE001  (a probe that raises says the instance is on an edge, too)
                 ctx.label("unstable-instance-not-judged")
                 ctx.nt = False
@@ -423,7 +437,8 @@ def _apr_pair(ctx, ra, rb, case, tag, rerun):
                 ctx.label("unstable-instance-not-judged")
                 ctx.nt = False
                 return
-    ctx.check(False, f"{tag}-same-model", f"relative deviation {r!r}; four 1e-12 perturbations of the guess moved neither "
+    suffix = diagnose() if diagnose is not None else ""
+    ctx.check(False, f"{tag}-same-model{suffix}", f"relative deviation {r!r}; ten 1e-13..1e-11 perturbations of the guess moved neither "
                                           f"run by more than 1e-7")
 
 
@@ -439,6 +454,20 @@ def _apr_body(relation):
                 ra, _ = _apr_call(ctx, "cp_apr-dense", D, case, apr_init(case))
                 rb, _ = _apr_call(ctx, "cp_apr-sparse", S, case, apr_init(case))
                 rerun = lambda w, g: _apr(S if w else D, case, g)[0]  # noqa: E731
+
+                def diagnose():
+                    """':dense-keeps-empty-row' when, after some sweep, the dense run (and not the sparse one) has a non-zero
+                    factor row for a slice without counts -- the signature of known finding C18-F1."""
+                    empties = [(k, i) for k in range(A.ndim) for i in range(A.shape[k]) if not np.any(np.moveaxis(A, k, 0)[i])]
+                    keeps = {0: False, 1: False}
+                    for w, X in ((0, D), (1, S)):
+                        for sweeps in range(1, int(case["maxiters"]) + 1):
+                            try:
+                                Mk = _apr(X, dict(case, maxiters=sweeps), apr_init(case))[0][0]
+                                keeps[w] = keeps[w] or any(np.any(Mk.factor_matrices[k][i, :] != 0) for k, i in empties)
+                            except Exception:  # noqa: BLE001
+                                return ""
+                    return ":dense-keeps-empty-row" if keeps[0] and not keeps[1] else ""
             elif relation == "printing":
                 X = H.make_tensor(A) if case["holder"] == "tensor" else H.make_sptensor(A, int(case["data_seed"]), case["stored"])
                 ctx.label(case["holder"])
@@ -457,6 +486,8 @@ def _apr_body(relation):
                           and isinstance(rb[1], ttb.ktensor) and H.snapshot(ra[1]) == H.snapshot(rb[1]),
                           "same-seed-same-starting-guess")
                 rerun = None
+            if relation != "dense-vs-sparse":
+                diagnose = None
         except _KnownPqnr:
             ctx.label("pqnr-known-assertion-not-judged")
             ctx.nt = False
@@ -467,13 +498,13 @@ def _apr_body(relation):
             _close(ctx, _kt(ctx, ra[0], case["shape"], int(case["R"]), "same-seed-first"),
                    _kt(ctx, rb[0], case["shape"], int(case["R"]), "same-seed-second"), "same-seed-same-model")
         else:
-            _apr_pair(ctx, ra, rb, case, relation, rerun)
+            _apr_pair(ctx, ra, rb, case, relation, rerun, diagnose)
 
     return body
 
 
 for _alg in ("mu", "pdnr", "pqnr"):
-    for _rel, _q, _t in (("dense-vs-sparse", 120, 1500), ("printing", 80, 1000), ("same-seed", 40, 500)):
+    for _rel, _q, _t in (("dense-vs-sparse", 400, 10000), ("printing", 200, 5000), ("same-seed", 80, 2000)):
         cell(f"C18/cp_apr-{_alg}/{_rel}", strategy=_apr_strategy(_alg, _rel), quick=_q, thorough=_t, shards=(4, 16))(_apr_body(_rel))
 
 
@@ -572,7 +603,7 @@ def _hosvd_print_case(draw, tier):
     return c
 
 
-@cell("C18/hosvd/printing", strategy=_hosvd_print_case, quick=300, thorough=5000, shards=(4, 16))
+@cell("C18/hosvd/printing", strategy=_hosvd_print_case, quick=800, thorough=16000, shards=(4, 16))
 def hosvd_printing(ctx, case):
     A, tol = _hosvd_setup(ctx, case)
     X = H.make_tensor(A)
@@ -592,7 +623,7 @@ def _hosvd_scale_case(draw, tier):
     return c
 
 
-@cell("C18/hosvd/scaling", strategy=_hosvd_scale_case, quick=300, thorough=5000, shards=(4, 16))
+@cell("C18/hosvd/scaling", strategy=_hosvd_scale_case, quick=800, thorough=16000, shards=(4, 16))
 def hosvd_scaling(ctx, case):
     A, tol = _hosvd_setup(ctx, case)
     c = float(case["c"])
@@ -614,7 +645,7 @@ def _hosvd_relabel_case(draw, tier):
     return c
 
 
-@cell("C18/hosvd/relabel", strategy=_hosvd_relabel_case, quick=300, thorough=5000, shards=(4, 16))
+@cell("C18/hosvd/relabel", strategy=_hosvd_relabel_case, quick=800, thorough=16000, shards=(4, 16))
 def hosvd_relabel(ctx, case):
     A, tol = _hosvd_setup(ctx, case)
     N, p = A.ndim, case["perm"]
@@ -695,7 +726,7 @@ def _tucker_print_case(draw, tier):
     return c
 
 
-@cell("C18/tucker_als/printing", strategy=_tucker_print_case, quick=150, thorough=2500, shards=(4, 16))
+@cell("C18/tucker_als/printing", strategy=_tucker_print_case, quick=400, thorough=8000, shards=(4, 16))
 def tucker_printing(ctx, case):
     A = C10.tucker_data(case)
     _tucker_labels(ctx, case)
@@ -709,7 +740,7 @@ def tucker_printing(ctx, case):
     _tucker_pair(ctx, ra, rb, A, case, tag="printing")
 
 
-@cell("C18/tucker_als/same-seed", strategy=_tucker_problem, quick=100, thorough=1500, shards=(4, 16))
+@cell("C18/tucker_als/same-seed", strategy=_tucker_problem, quick=200, thorough=5000, shards=(4, 16))
 def tucker_same_seed(ctx, case):
     A = C10.tucker_data(case)
     _tucker_labels(ctx, case)
@@ -731,7 +762,7 @@ def _tucker_scale_case(draw, tier):
     return c
 
 
-@cell("C18/tucker_als/scaling", strategy=_tucker_scale_case, quick=150, thorough=2500, shards=(4, 16))
+@cell("C18/tucker_als/scaling", strategy=_tucker_scale_case, quick=400, thorough=8000, shards=(4, 16))
 def tucker_scaling(ctx, case):
     A = C10.tucker_data(case)
     _tucker_labels(ctx, case)
@@ -755,7 +786,7 @@ def _tucker_relabel_case(draw, tier):
     return c
 
 
-@cell("C18/tucker_als/relabel", strategy=_tucker_relabel_case, quick=150, thorough=2500, shards=(4, 16))
+@cell("C18/tucker_als/relabel", strategy=_tucker_relabel_case, quick=400, thorough=8000, shards=(4, 16))
 def tucker_relabel(ctx, case):
     A = C10.tucker_data(case)
     _tucker_labels(ctx, case)
@@ -837,7 +868,7 @@ def _gcp_pair(ctx, ra, rb, case, tag):
     ctx.check(ok and abs(float(fa) - float(fb)) <= 1e-7 * (abs(float(fa)) + abs(float(fb))) + 1e-12, f"{tag}-same-objective", (fa, fb))
 
 
-@cell("C18/gcp_opt-lbfgsb/printing", strategy=_gcp_case, quick=150, thorough=2500, shards=(4, 16))
+@cell("C18/gcp_opt-lbfgsb/printing", strategy=_gcp_case, quick=400, thorough=8000, shards=(4, 16))
 def gcp_printing(ctx, case):
     A = gcp_data(case)
     ctx.nt = len(case["shape"]) >= 3 and int(case["R"]) >= 2
@@ -849,7 +880,7 @@ def gcp_printing(ctx, case):
     _gcp_pair(ctx, ra, rb, case, "printing")
 
 
-@cell("C18/gcp_opt-lbfgsb/same-seed", strategy=_gcp_case, quick=100, thorough=1500, shards=(4, 16))
+@cell("C18/gcp_opt-lbfgsb/same-seed", strategy=_gcp_case, quick=200, thorough=5000, shards=(4, 16))
 def gcp_same_seed(ctx, case):
     case = dict(case, init="random")
     A = gcp_data(case)
